@@ -923,6 +923,11 @@ func (db *RockDB) zParseLimit(total int64, start int, stop int) (offset int, cou
 		}
 	}
 
+	if int64(stop) >= total {
+		// a stop beyond the last rank means the last rank (as redis does): otherwise the
+		// implied count is huge and is refused as a too large batch, or overflows
+		stop = int(total) - 1
+	}
 	if start > stop {
 		offset = -1
 		return
